@@ -301,6 +301,23 @@ ROUND4 = {
 }
 
 
+ROUND7 = {
+    "C02": "No statistic changes the length of a spectral axis depending on the data (dropna / where(drop=True)): the positional peak index stays on the axis it was computed on.",
+    "C03": "smooth_spec fills the edge NaN of the centred window from the input on every path (a NaN bin is owned by no partition).",
+    "C06": "No data-dependent axis length in the statistics; per-spectrum kernels of apply_ufunc and what they call write no module-level object or mutable default (shared effect analysis).",
+    "C07": "Stores through a local alias of .values / .data are stores through .values; no computational entry point writes in place into a view of its input (numpy aliases, dask does not).",
+    "C09": "No numeric control parameter is defaulted with `p or <non-zero constant>` (a caller's 0 is legitimate); split()'s result depends on all four limits on the all-steps path (strong-update data dependence).",
+    "C10": "Constant offsets that meet the stored direction coordinate additively are floats (NumPy 2 promotion of integer labels).",
+    "C11": "No writer reads freq / dir / dd through SpecDataset's construction-time copies of the accessor attributes (found and repaired e94d467).",
+    "C12": "arange / linspace grids do not borrow their dtype from a data variable.",
+    "C13": "arange / linspace grids do not borrow their dtype from file data; no zip() pairs a fixed-length literal with file-derived columns without strict=True.",
+    "C15": "No limiter on the cos-2s spreading exponent; alternatives are selected with where(), never blended as c*a + (1-c)*b.",
+    "C16": "The edge NaN of the centred window is filled from the input on every path.",
+    "C18": "Every consumer of SpecDataset's construction-time snapshot of the accessor attributes (writers, SpecDataset methods) is its own finding (three pinned writers repaired, e94d467).",
+    "C19": "No tracking threshold defaulted with `p or <non-zero constant>`; the peak-frequency change compared with the asymmetric window is current minus previous.",
+}
+
+
 def main():
     props = [json.loads(l) for l in open(os.path.join(HERE, "properties.jsonl"))]
     checks, na = [], []
@@ -315,7 +332,7 @@ def main():
                 "evidence_file": f"/verif/evidence/{pid}.json",
                 "replay_cmd_template": f"./vcheck {pid} --explain 0  # replay file: {{path}}",
                 "engine": "vsa",
-                "level_claimed": {"category": c[1], "text": (c[2] + " " + ROUND3.get(pid, "") + (" Round 4: " + ROUND4[pid] if pid in ROUND4 else "") + (" Round 5: " + ROUND5[pid] if pid in ROUND5 else "")).strip(), "design_ref": c[5]},
+                "level_claimed": {"category": c[1], "text": (c[2] + " " + ROUND3.get(pid, "") + (" Round 4: " + ROUND4[pid] if pid in ROUND4 else "") + (" Round 5: " + ROUND5[pid] if pid in ROUND5 else "") + (" Round 7: " + ROUND7[pid] if pid in ROUND7 else "")).strip(), "design_ref": c[5]},
                 "level_note": COMMON_TRUST + c[3],
                 "technique": c[4],
             })
